@@ -145,6 +145,7 @@ DERIVES = {"Clone", "PartialEq", "Eq", "Hash", "Debug", "Default", "PartialOrd",
 def strip_generics(t):
     """`a::b::Foo<X, Y>` -> `Foo`; keeps `&`, tuples etc. untouched otherwise"""
     t = t.strip()
+    t = re.sub(r"::<", "<", t)
     out, depth = [], 0
     for c in t:
         if c == "<":
@@ -309,4 +310,32 @@ def foreign_types(crate_prefix, relpath):
         raise RuntimeError("source of %s %s not in the cargo registry" % (crate_prefix, ver))
     out = {}
     _scan_types(open(c[0]).read(), out)
+    return out
+
+
+def foreign_crate_types(crate_name):
+    """every struct/enum definition of a dependency pinned by Cargo.lock, from the cargo
+    registry: -> {Name: [(module, kind, data)]} with module = era directory / file stem"""
+    import glob
+    lock = open(os.path.join(REPO, "Cargo.lock")).read()
+    m = re.search(r'name = "%s"\nversion = "([^"]+)"' % re.escape(crate_name), lock)
+    ver = m.group(1) if m else "*"
+    roots = sorted(glob.glob(os.path.expanduser("~/.cargo/registry/src/*/%s-%s/src" % (crate_name, ver))))
+    out = {}
+    if not roots:
+        return out
+    for dp, _, files in os.walk(roots[0]):
+        for f in sorted(files):
+            if not f.endswith(".rs"):
+                continue
+            stem = f[:-3]
+            if stem in ("mod", "model", "lib"):
+                stem = os.path.basename(dp) if stem != "lib" else crate_name.replace("-", "_")
+            one = {}
+            try:
+                _scan_types(open(os.path.join(dp, f)).read(), one)
+            except Exception:
+                continue
+            for name, d in one.items():
+                out.setdefault(name, []).append((stem,) + d)
     return out
